@@ -142,7 +142,7 @@ MateBlame(cfg, table, ads, p, om, hasm, s, q) ==
   ELSE IF NeedsCut1(table, ads, cfg.action, cfg.times, p) # {} THEN {}
   ELSE LET c == Cut1(table, ads, cfg.action, cfg.times, p)
            outOK == c[1].seq = s /\ c[1].qual = q
-       IN IF hasm /\ ObsMatches(om) # ProjMatches(c[2]) THEN (IF outOK THEN {"record"} ELSE {"choice"})
+       IN IF hasm /\ ObsMatches(om) # ProjMatches(c[2]) THEN (IF outOK /\ cfg.action # "none" THEN {"record"} ELSE {"choice"})
           ELSE IF ~outOK THEN (IF hasm THEN {"action"} ELSE {"adapter"}) ELSE {}
 
 AdapterBlame(cfg, table, p1, p2, st) ==
@@ -153,7 +153,7 @@ AdapterBlame(cfg, table, p1, p2, st) ==
                 orient == IF cfg.revcomp /\ st.isrc >= 0 /\ (st.isrc = 1) # x.isrc THEN {"orient"} ELSE {}
             IN IF cfg.pairads
                THEN IF st.hasm /\ (ObsMatches(st.m1) # ProjMatches(x.ms1) \/ ObsMatches(st.m2) # ProjMatches(x.ms2))
-                    THEN (IF differs THEN {"choice"} ELSE {"record"})
+                    THEN (IF differs \/ cfg.action = "none" THEN {"choice"} ELSE {"record"})
                     ELSE IF differs THEN (IF st.hasm THEN {"action"} ELSE {"adapter"}) ELSE {}
                ELSE IF cfg.revcomp /\ cfg.action = "lowercase"
                THEN orient \cup (IF orient = {} /\ differs THEN {"adapter"} ELSE {})       \* (both mates are upper-cased first: not split up)
@@ -167,6 +167,26 @@ AdapterBlame(cfg, table, p1, p2, st) ==
        ELSE LET decision == IF cfg.revcomp THEN CutRevComp(table, cfg.ads1, cfg.action, cfg.times, p1)[3] ELSE FALSE
             IN (IF cfg.revcomp /\ st.isrc >= 0 /\ (st.isrc = 1) # decision THEN {"orient"} ELSE {})
                \cup MateBlame(cfg, table, cfg.ads1, ori, st.m1, st.hasm, st.s1, st.q1)
+
+\* the modifiers that act on a mate are those the options ask for (a modifier that is missing or superfluous is
+\* nobody's local deviation, but explains a different output): label "stages", owned by C10
+RECURSIVE Rep2(_, _)
+Rep2(x, n) == IF n = 0 THEN <<>> ELSE <<x>> \o Rep2(x, n - 1)
+ExpectedLabels(cfg, second) ==
+  LET cuts == IF second THEN cfg.cut2 ELSE cfg.cut1
+      q == IF second THEN cfg.q2 ELSE cfg.q1
+      ln == IF second THEN cfg.len2 ELSE cfg.len1
+  IN Rep2("cut", Len(cuts)) \o (IF cfg.nextseq >= 0 THEN <<"nextseq">> ELSE <<>>) \o (IF q.on THEN <<"qtrim">> ELSE <<>>)
+     \o (IF cfg.polya THEN <<"polya">> ELSE <<>>) \o (IF ln.on THEN <<"shorten">> ELSE <<>>)
+     \o (IF cfg.trimn THEN <<"trimn">> ELSE <<>>)
+ObservedLabels(chain, second) ==
+  LET labs == [i \in 1..Len(chain) |-> IF second THEN chain[i].l2 ELSE chain[i].l1] IN
+  SelectSeq(labs, LAMBDA x : x \in {"cut", "nextseq", "qtrim", "polya", "shorten", "trimn"})
+HasUnknown(chain) == \E i \in 1..Len(chain) : chain[i].l1 = "unknown" \/ chain[i].l2 = "unknown"
+StagesBlame(cfg, chain) ==
+  IF chain = <<>> \/ HasUnknown(chain) THEN {}
+  ELSE IF ObservedLabels(chain, FALSE) # ExpectedLabels(cfg, FALSE)
+          \/ (cfg.paired /\ ObservedLabels(chain, TRUE) # ExpectedLabels(cfg, TRUE)) THEN {"stages"} ELSE {}
 
 RECURSIVE BlameFrom(_, _, _, _, _, _)
 BlameFrom(cfg, table, chain, i, p1, p2) ==
@@ -184,6 +204,7 @@ BlameFrom(cfg, table, chain, i, p1, p2) ==
 Blame(e, k) ==
   LET rd == e.reads[k] IN
   BlameFrom(e.cfg, rd.table, rd.obs.chain, 1, Rd0(rd.in1.seq, rd.in1.qual), Rd0(rd.in2.seq, rd.in2.qual))
+  \cup StagesBlame(e.cfg, rd.obs.chain)
 \* C10, directly on the recorded chain: the modifiers act in the documented order (cut, NextSeq, quality, adapters,
 \* poly-A, --length, --trim-n, then the name steps and zero-capping); labels the recorder does not know are skipped
 StageRank(lab) ==
